@@ -137,8 +137,12 @@ namespace ST
             // Negate as unsigned: std::abs() is undefined for the most negative value
             formatter.format((num < 0) ? 0 - static_cast<unsigned int>(num)
                                        : static_cast<unsigned int>(num), 10, false);
-            if (num < 0)
+            if (num < 0) {
+                // Make room for sign and digits at once, so that a failed
+                // allocation cannot leave a stray '-' behind
+                expand_buffer(formatter.size() + 1);
                 append_char('-');
+            }
             return append(formatter.text(), formatter.size());
         }
 
@@ -155,8 +159,12 @@ namespace ST
             // Negate as unsigned: std::abs() is undefined for the most negative value
             formatter.format((num < 0) ? 0 - static_cast<unsigned long>(num)
                                        : static_cast<unsigned long>(num), 10, false);
-            if (num < 0)
+            if (num < 0) {
+                // Make room for sign and digits at once, so that a failed
+                // allocation cannot leave a stray '-' behind
+                expand_buffer(formatter.size() + 1);
                 append_char('-');
+            }
             return append(formatter.text(), formatter.size());
         }
 
@@ -173,8 +181,12 @@ namespace ST
             // Negate as unsigned: std::abs() is undefined for the most negative value
             formatter.format((num < 0) ? 0 - static_cast<unsigned long long>(num)
                                        : static_cast<unsigned long long>(num), 10, false);
-            if (num < 0)
+            if (num < 0) {
+                // Make room for sign and digits at once, so that a failed
+                // allocation cannot leave a stray '-' behind
+                expand_buffer(formatter.size() + 1);
                 append_char('-');
+            }
             return append(formatter.text(), formatter.size());
         }
 
